@@ -1,5 +1,5 @@
 """C05 Only the counterparty, in its proper role, can act on a channel."""
-import stages
+import stages, vlib
 
 def run(ctx):
     ctx.rule = ("every message kind from counterparty B / stranger X / self, with colliding and fresh transfer ids, network and transport path, restart-existing requests with every "
@@ -9,3 +9,45 @@ def run(ctx):
     stages.mgr_family(ctx, ["C05."], ["c05"], lambda s: s["stim"]["kind"].startswith("Recv") or s["stim"]["kind"].startswith("On") or s["stim"]["kind"] in ("SendVoucher", "SendVoucherResult", "UpdateValidation"),
                       quick_n=4000, invariants=["M_C05_Entitled", "M_C02_Final"],
                       keep=lambda l: '"kind":"Restart"' in l and '"from":"B"' in l and ('"v3"' in l or '"v0"' in l) and '"status":"Ongoing"' in l)
+    adapter_strangers(ctx)
+
+
+def adapter_strangers(ctx):
+    """transport-adapter part: graphsync callbacks that name ANOTHER peer than a channel's counterparty (requests, blocks, responses, send / receive
+    errors attributed to peer Q) on the real graphsync adapter - behaviours of GsT.tla with two remote peers, replayed by gstx/TestReplay and judged by
+    GsTJudge; a callback of a stranger that produces an event on (or a graphsync action for) somebody else's channel is C16.routed there, reported here
+    as C05.strangerOnTransport"""
+    import os
+    from props import c16
+    cases = []
+    n = 30 if ctx.quick() else 120
+    for k, (mix, kind) in enumerate((("routing", c16.KINDS[1]), ("serve", c16.KINDS[2]), ("request", c16.KINDS[0]))):
+        cfg = stages.write_cfg(ctx, "gst-c05-%s.cfg" % mix, c16.cfg_text(kind=kind, ops=c16.MIXES[mix], max_req=4, max_pend=2, exhaustive=False, length=16, record=True, req_peers=("P", "Q")))
+        res = ctx.tlc("GsT", cfg, workers=1, simulate="num=%d" % n, depth=18, seed=ctx.seed * 6151 + k, timeout=600, heap="3g")
+        if res.timeout or "Error:" in res.out:
+            raise vlib.Inconclusive("GsT simulation (%s, two peers) failed:\n%s" % (mix, res.out[-2000:]))
+        for i, c in enumerate(stages.parse_cases(res.out)):
+            c["case"] = "c05-%s-%d" % (mix, i)
+            cases.append(c)
+    if not cases:
+        raise vlib.Inconclusive("no two-peer behaviours generated")
+    cp, obs, empty = ctx.path("c05-gst-cases.ndjson"), ctx.path("obs.ndjson"), ctx.path("storm.ndjson")
+    vlib.write_ndjson(cp, cases)
+    open(empty, "w").close()
+    ctx.must_run_go(ctx.go_bin("gstx"), "TestReplay", env={"VERIF_CASES": cp, "VERIF_OUT": obs}, timeout=240)
+    res = ctx.tlc("GsTJudge", "gst-judge.cfg", workers=1, timeout=600, extra_files=[obs, empty])
+    vlib.tlc_must_pass(res, "GsTJudge")
+    p = os.path.join(res.dir, "verdicts.ndjson")
+    byc = {c["case"]: c for c in cases}
+    for v in (vlib.read_ndjson(p) if os.path.exists(p) else []):
+        if v["rule"] == "conf":
+            ctx.drift.append(v)
+        elif v["rule"] in ("harness", "script"):
+            raise vlib.Inconclusive("two-peer adapter replay: %s" % v)
+        elif v["rule"] == "C16.routed":
+            ctx.violation({"rule": "C05.strangerOnTransport", "op": v["op"]},
+                          "C05.strangerOnTransport: a graphsync callback (%s) acted on a channel its peer is no party of (real adapter, case %s step %s)" % (v["op"], v["case"], v["i"]),
+                          detail={"verdict": v, "case_def": byc.get(v["case"])})
+    ctx.traces += len(cases)
+    ctx.evaluations += sum(len(c["steps"]) for c in cases)
+    ctx.extra["adapter_two_peer_behaviours"] = len(cases)
